@@ -9,7 +9,7 @@ from . import sut, wire
 BEHAVIOURS = ["always", "never", "stop2", "late-within", "late-beyond", "wrong-token", "unsolicited",
               "chatty-silent", "late-long", "never", "always", "slow-register", "slow-register-silent", "cap-renegotiate", "late-once-silent", "cap-open-silent", "cap-open-answering",
               "fragment-silent", "split-answers", "fragment-silent", "surplus-then-silent", "double-then-silent",
-              "surplus-then-silent"]
+              "surplus-then-silent", "busy-at-deadline", "busy-at-deadline"]
 
 
 class Lag(threading.Thread):
@@ -64,6 +64,8 @@ class Peer:
         self.n = 0
         self.fragment_at = self.t_reg + 0.3
         self.pending_tails = []
+        self.burst_end = None
+        self.mark_sent = False
 
     def r_capline(self):
         return ["CAP LS 302", "CAP REQ :multi-prefix", "CAP REQ :bogus"][self.idx % 3]
@@ -126,6 +128,8 @@ class Peer:
             if tok in self.own_tokens:
                 del self.own_tokens[tok]
                 self.own_ok += 1
+                if tok == "busy-mark":
+                    self.burst_end = now
             else:
                 self.events.append((now, "unexpected-pong", m.raw))
         elif m.verb.startswith("ERROR"):
@@ -170,7 +174,7 @@ class Peer:
             self.c.send("PONG :" + a[1])
             self.answered += 1
         if now >= self.next_own_ping and self.b not in ("never", "fragment-silent", "split-answers", "surplus-then-silent",
-                                                         "double-then-silent"):
+                                                         "double-then-silent", "busy-at-deadline"):
             self.n += 1
             # "a PONG carrying the same token": ordinary and odd tokens (empty, leading colon, blanks, multi-byte)
             odd = ["", ":", ":-) %d", "a:b%d", "two words %d", "é%d", "::%d", " lead%d", "#%d", "%d:", "trail%d ",
@@ -189,6 +193,16 @@ class Peer:
             else:
                 self.c.send("PING :" + tok)
             self.next_own_ping = now + 0.9
+        if self.b == "busy-at-deadline" and self.first_unanswered is not None and not self.mark_sent:
+            # never answers; around the moment its pong timeout expires it keeps its own handler busy with commands (wrong
+            # OPER attempts, ~3 ms each): the timeout must not get lost because nobody was waiting for it at that instant
+            due = self.first_unanswered + self.Q
+            if due - 0.4 <= now < due + 0.4:
+                self.c.send_raw(b"OPER root wrong\r\n" * (6 + self.idx % 5))
+            elif now >= due + 0.4:
+                self.mark_sent = True
+                self.own_tokens["busy-mark"] = now
+                self.c.send("PING :busy-mark")
         if self.b == "surplus-then-silent" and self.fragment_at is not None and now >= self.fragment_at:
             # PONGs nobody asked for, before the first server PING; no PING is ever answered
             self.fragment_at = None
@@ -208,7 +222,9 @@ def run_config(args):
     lag = Lag()
     lag.start()
     try:
-        with sut.Server(binary, dict(ping_timeout=P, pong_timeout=Q), hooks=hooks) as srv:
+        with sut.Server(binary, dict(ping_timeout=P, pong_timeout=Q,
+                                     operators=[{"name": "root", "password": sut.password_hash(binary, "rootpw")}]),
+                        hooks=hooks) as srv:
             peers = []
             t0 = time.monotonic()
             # staggered registration phases
@@ -260,7 +276,8 @@ def run_config(args):
                                                 % (tag, p.nick, len(p.server_pings), T, want)))
                 # R4 dead peers go
                 if not responsive and p.first_unanswered is not None:
-                    deadline = p.first_unanswered + Q + slack
+                    # (a peer that kept its own handler busy across the deadline is judged from the end of its burst)
+                    deadline = max(p.first_unanswered + Q, p.burst_end or 0) + slack
                     if p.closed_at is None:
                         if now > deadline + 0.2:
                             out["findings"].append(("clock:dead-peer-kept|" + ("never" if p.b != "late-beyond" else p.b),
@@ -272,7 +289,10 @@ def run_config(args):
                         out["findings"].append(("clock:dead-peer-late|" + ("never" if p.b != "late-beyond" else p.b),
                                                 "[%s] %s (%s) dropped %.1f s after the unanswered PING (pong_timeout %d s, "
                                                 "slack %.1f s)" % (tag, p.nick, p.b, p.closed_at - p.first_unanswered, Q, slack)))
-                    if p.closed_at is not None and (p.error_line is None or "timeout" not in p.error_line.lower()):
+                    # (a peer that is still writing when the server closes may lose the unread ERROR line to the reset its
+                    # own late bytes provoke: TCP, not the server)
+                    if p.closed_at is not None and p.b != "busy-at-deadline" \
+                            and (p.error_line is None or "timeout" not in p.error_line.lower()):
                         out["findings"].append(("clock:no-error-line|" + p.b,
                                                 "[%s] %s closed without an ERROR about the timeout: %r" % (tag, p.nick, p.error_line)))
             # R5 clean-up of the dropped ones (C06): gone from the state, nick free again
